@@ -17,7 +17,7 @@ Require Import Grits.Base Grits.Forms Grits.Expand Grits.TcTop Grits.Runtime.
 Require Import Grits.RuntimeFootprint Grits.proofs.RuntimeFacts Grits.proofs.Diamond Grits.proofs.Determinism Grits.proofs.AsyncSync Grits.proofs.RuntimeCheckFacts Grits.proofs.ForkJoin Grits.proofs.DeterminismExamples.
 Require Import Grits.Tc Grits.spec.RtTyping Grits.spec.Topo Grits.proofs.RtSafety Grits.proofs.RtInit Grits.proofs.RtTheorems Grits.proofs.DeterminismTyped Grits.proofs.TopoLin Grits.proofs.TopoStep Grits.proofs.TopoReach Grits.proofs.InitLinear.
 Require Import Grits.spec.SynOk Grits.proofs.RtTcSyn Grits.proofs.RtTheoremsTc Grits.proofs.DeterminismTc.
-Require Import Grits.proofs.LinBridge Grits.proofs.InitAccept Grits.proofs.DeterminismAccept Grits.proofs.TopoStepExt Grits.proofs.TopoFinish Grits.proofs.TopoDup Grits.proofs.InvAll Grits.proofs.DeterminismAll Grits.proofs.AsyncSync Grits.proofs.InvNP Grits.proofs.PlainNP Grits.proofs.DeterminismNP Grits.proofs.Balanced Grits.proofs.RtTheoremsTc Grits.proofs.DeterminismFinal.
+Require Import Grits.proofs.LinBridge Grits.proofs.InitAccept Grits.proofs.DeterminismAccept Grits.proofs.TopoStepExt Grits.proofs.TopoFinish Grits.proofs.TopoDup Grits.proofs.InvAll Grits.proofs.DeterminismAll Grits.proofs.AsyncSync Grits.proofs.InvNP Grits.proofs.PlainNP Grits.proofs.DeterminismNP Grits.proofs.Balanced Grits.proofs.RtTheoremsTc Grits.proofs.DeterminismFinal Grits.proofs.NPConfluence.
 
 Theorem C03_step_is_move : forall md D F c ch, step md D F c ch = sres_of c (move_of md D F c ch).
 Proof. exact step_move. Qed.
@@ -665,6 +665,22 @@ Theorem C03_np_polarized_agree_plain_final : forall txt p p' pick1 f1 t1,
     exists t2, exec_run f2 pick2 Async (p_types p') (p_funs p') (init_config p') = RQuiescent t2 /\ labels t2 ≡ₚ labels t1.
 Proof. exact np_polarized_agree_plain_final. Qed.
 
+(* the peaks of the non-polarized mode (typed forest configuration, empty buffers): two different enabled
+   choices are independent - and then commute in one step - unless they share the target of a control
+   message: Control f t with Run t, with a Rendezvous of t, or with Control t t' *)
+Theorem C03_np_peak_cases : forall D F teq, teq_laws D teq -> funs_typed D F teq ->
+  forall Δ c, cfg_typed D F teq Δ c -> Topo c -> bufs_empty c ->
+  forall a b c1 c2, a <> b -> step NP D F c a = SStep c1 -> step NP D F c b = SStep c2 ->
+  indep NP D c a b \/ np_conflict a b \/ np_conflict b a.
+Proof. exact np_peak_cases. Qed.
+
+Theorem C03_np_peak_diamond : forall D F teq, teq_laws D teq -> funs_typed D F teq ->
+  forall Δ c, cfg_typed D F teq Δ c -> Topo c -> bufs_empty c ->
+  forall a b c1 c2, ns_ok c -> a <> b -> step NP D F c a = SStep c1 -> step NP D F c b = SStep c2 ->
+  ~ np_conflict a b -> ~ np_conflict b a ->
+  exists d1 d2, step NP D F c1 b = SStep d1 /\ step NP D F c2 a = SStep d2 /\ cfg_equiv d1 d2.
+Proof. exact np_peak_diamond. Qed.
+
 Print Assumptions C03_init_linear_accept.
 Print Assumptions C03_topo_runs_core_accept.
 Print Assumptions C03_determinism_core_accept.
@@ -697,3 +713,6 @@ Print Assumptions C03_determinism_parsed_final.
 Print Assumptions C03_async_sync_agree_parsed_final.
 Print Assumptions C03_determinism_np_plain_final.
 Print Assumptions C03_np_polarized_agree_plain_final.
+Print Assumptions C03_np_peak_cases.
+Print Assumptions C03_np_peak_diamond.
+Print Assumptions uniform_balanced_bounded.
